@@ -143,4 +143,43 @@ def runImpl [DecidableEq σ] (cfg : Cfg) (h : Handler σ) (p : Preds σ) (hash :
     | none => none
     | some (r, acc') => some (r, acc', { (s₀.setState initial) with mode := initialMode })
 
+
+/-- sum of two status tables (`McStats::combine`) -/
+def combineStatuses (a b : List (String × Nat)) : List (String × Nat) :=
+  b.foldl (fun m (k, n) =>
+    if m.any (·.1 == k) then m.map (fun (x, c) => if x == k then (x, c + n) else (x, c)) else m ++ [(k, n)]) a
+
+/-- union of collected sets by state identity (`HashSet<McState>::extend`) -/
+def combineCollected {σ : Type} [DecidableEq σ] (a b : List (McSys σ)) : List (McSys σ) :=
+  b.foldl (fun c x => if c.any (fun y => y.key = x.key) then c else c ++ [x]) a
+
+/-- totals of a staged run -/
+structure Totals (σ : Type) where
+  evald : List (McSys σ) := []
+  collected : List (McSys σ) := []
+  statuses : List (String × Nat) := []
+
+/-- `ModelChecker::run_from_states_with_change`, as repaired: one strategy (so one visited cache) over
+    all start states, which the caller passes in the order the code visits them (sorted by depth,
+    ties by state hash); per-run statistics are summed; the checker is restored to its initial state
+    on every exit path. -/
+def runFromStates [DecidableEq σ] (cfg : Cfg) (h : Handler σ) (p : Preds σ) (hash : McSys.Key σ → Nat)
+    (strat : Strat) (fuel : Nat) (sys : McSys σ) (cb : McSys σ → R (McSys σ)) (mode : CacheMode)
+    (starts : List (McSys.Snapshot σ)) : Option (Res (McSys σ) × Totals σ × McSys σ) :=
+  let initial := sys.getState
+  let rec go : List (McSys.Snapshot σ) → McSys σ → Cache (McSys.Key σ) → Totals σ →
+      Option (Res (McSys σ) × Totals σ × McSys σ)
+    | [], cur, _, tot => some (.ok, tot, cur.setState initial)
+    | st :: rest, cur, cache, tot =>
+      match runImpl cfg h p hash strat fuel (cur.setState st) cb { cache := cache } with
+      | none => none
+      | some (r, acc, cur') =>
+        let tot' : Totals σ := { evald := tot.evald ++ acc.evald,
+                                 collected := combineCollected tot.collected acc.collected,
+                                 statuses := combineStatuses tot.statuses acc.statuses }
+        match r with
+        | .ok => go rest cur' acc.cache tot'
+        | r => some (r, tot', cur'.setState initial)
+  go starts sys { mode := mode } {}
+
 end Anysystem
